@@ -205,7 +205,10 @@ def build_app(shape, handler, cell):
     from clastic import GET, POST
     routes = [Route('/x', ep, rn if shape['render'] else None, middlewares=route_mws),
               Route('/ok', lambda: Response('fine')),
-              GET('/m', lambda: Response('m-get')), POST('/m', lambda: Response('m-post'))]
+              GET('/m', lambda: Response('m-get')), POST('/m', lambda: Response('m-post')),
+              # typed URL bindings: text the binding's pattern admits but its converter refuses is "no match", never a failure
+              Route('/nums/<nums+int>', lambda nums: Response('nums %r' % (nums,))), Route('/one/<n:int>', lambda n: Response('one %r' % (n,))),
+              Route('/f/<xs*float>', lambda xs: Response('f %r' % (xs,))), Route('/opt/<k?int>/<rest*>', lambda k, rest: Response('opt %r %r' % (k, rest)))]
     return Application(routes, middlewares=app_mws, error_handler=make_handler(handler))
 
 
@@ -322,6 +325,27 @@ def check_probes(ctx, app, probe0, what, rc):
                      % (what, PROBES[i][0], PROBES[i][1], now[i][:2], probe0[i][:2]), rc)
 
 
+GAP_PATHS = ['/nums/1//2', '/nums/3///4/5', '/nums//', '/one/' + '7' * 5000, '/one/-' + '0' * 4400 + '1', '/f/1//2.5', '/f//', '/f/1e999/2',
+             '/f/' + '9' * 5000, '/one/+', '/one/\u0661\u0662', '/nums/1/\u00b2', '/opt//x', '/opt/+/x', '/f/nan/inf', '/one/1_000', '/f/1_0.5']
+
+
+def typed_gap_requests(ctx, app, handler):
+    """paths in the gap between what a typed binding's pattern admits and what its converter accepts (empty pieces, digit
+    strings beyond the interpreter's conversion limit, non-ASCII digits): every one gets a response, and the application goes on"""
+    probe0 = take_probes(app)
+    for path in GAP_PATHS:
+        for method in ('GET', 'POST'):
+            case = {'kind': 'typed-gap', 'handler': handler, 'path': path if len(path) < 80 else path[:12] + '...(%d)' % len(path), 'method': method}
+            ctx.case(case)
+            r = call(app, path, method)
+            ctx.requests += 1
+            if r.exc is not None:
+                ctx.mismatch('escaped:typed-binding', '%s %s [handler %s]: exception escaped the WSGI callable: %r' % (method, case['path'], handler, r.exc), case)
+                return
+            ctx.nt(['typed-gap', handler, case['path'], method], sample=False)
+    check_probes(ctx, app, probe0, 'after the typed-binding paths [handler %s]' % handler, {'kind': 'typed-gap', 'handler': handler})
+
+
 def nontrivial(pos, beh, handler):
     return pos != ['ep'] or handler != 'default' or any(t in beh[0] for t in ('nonascii', 'huge', 'BadStr', 'BadRepr', 'bytes'))
 
@@ -334,6 +358,10 @@ def run_product(spec, ctx):
         app = build_app(shape, handler, cell)
         probe0 = take_probes(app)
         assert probe0[0][:2] == (200, b'fine'), probe0
+        try:
+            typed_gap_requests(ctx, app, handler)
+        except Exception as e:
+            ctx.classify_exc(e, {'kind': 'typed-gap', 'handler': handler}, 'product')
         accepts = ['text/html', 'application/json', 'application/xml', 'text/plain', None]
         for pi, pos in enumerate(positions(shape)):
             for bi, beh in enumerate(beh_table()):
@@ -483,6 +511,9 @@ def run_shard(spec, ctx):
 def replay(case, kind, ctx):
     if kind == 'shared' or (isinstance(case, list) and len(case) == 6 and isinstance(case[0], str)):
         shared_body(case, ctx)
+        return
+    if isinstance(case, dict) and case.get('kind') == 'typed-gap':
+        typed_gap_requests(ctx, build_app(FIXED[0], case['handler'], {}), case['handler'])
         return
     if isinstance(case, dict):
         shape = FIXED[case['shape']]
